@@ -1180,6 +1180,11 @@ def judge_computed(meta, impl):
     """A few clauses stated directly on single values."""
     fn, value = meta.get('fn'), meta.get('value', '')
     sig = meta.get('signature', '')
+    if not impl.startswith('err:') and LEFTOVER.search(impl):
+        # css-values §4 (theorem C06.length_absolute_result on the model): no computing function may leave a
+        # font-relative or non-px absolute length in its result
+        return (f'{fn}({meta.get("key") or "width"}, {value}) returns {impl}: a length in a relative or non-px unit is left '
+                f'in the computed value')
     if fn == 'border_width' and sig.split(':')[1:2] and sig.split(':')[1] in ('none', 'hidden') and impl != 'num:0':
         return f'{meta.get("key")} computes to {impl} although the border style is {sig.split(":")[1]} (must be 0)'
     if fn == 'compute_float' and ("'absolute'" in sig or "'fixed'" in sig or sig.endswith(':absolute') or
@@ -1295,6 +1300,15 @@ def search(run, failures, reference_winner):
     docs.quiet()
     found, start = [], time.time()
     budget = 40 if not run.thorough else 240
+    # the initial values themselves (theorem C06.initial_values_absolute on the generated table)
+    from weasyprint.css.properties import INITIAL_VALUES
+    for key, value in INITIAL_VALUES.items():
+        if LEFTOVER.search(canon(value)):
+            html = '<p>x</p>'
+            what = (f'INITIAL_VALUES[{key!r}] is {canon(value)}: box.style[{key!r}] of the <p> of {html} (no declaration) '
+                    f'holds a length in a relative or non-px unit (the computed value of a <length> is in px)')
+            found.append({'what': what, 'input': {'meta': {'html': html, 'key': key}, 'html': html, 'section': 'initial-values'},
+                          'signature': f'initial-leftover:{key}'})
     while time.time() - start < budget and len(found) < 3:
         doc = random_document(run.rng)
         run.search_stats['evaluations'] += 1
@@ -1328,6 +1342,10 @@ def replay(data, reference_winner, reference_page_match, rank):
         from harness import c06_real
         _, out = c06_real.run_case(meta['case'])
         return c06_real.judge_regression(meta, out)
+    if section == 'initial-values':
+        from weasyprint.css.properties import INITIAL_VALUES
+        value = INITIAL_VALUES[meta['key']]
+        return f'INITIAL_VALUES[{meta["key"]!r}] is {canon(value)}' if LEFTOVER.search(canon(value)) else None
     if section == 'spec-tables':
         from harness import c06_real
         return c06_real.replay_spec(meta)
